@@ -114,6 +114,12 @@ const STEPS: &[(&str, &str)] = &[
     ("(exit 0) & wait $!; kill -s TERM $!; echo st=$?", "signal-to-reaped-child"),
     ("cat <<E\nhere $((1+1))\nE", "here-document"),
     ("cat <<E | cat\npiped\nE", "here-document-pipeline"),
+    // a here-document on a descriptor that is closed and the lowest free one: the temporary file
+    // may be opened right there, and must then be an ordinary (inheritable, copyable) descriptor
+    ("cat 3<<E <&3\nhere3\nE", "here-document-on-free-descriptor"),
+    ("exec 3<<E\nkept\nE\ncat <&3; exec 3<&-; cat <&3; echo $?", "here-document-on-free-descriptor"),
+    ("{ cat <&4; } 4<<E 3</dev/null\ngroup\nE", "here-document-on-free-descriptor"),
+    ("exec 3<<E\nsub\nE\n(cat <&3); exec 4<&3 3<&-; cat <&4", "here-document-on-free-descriptor"),
     ("cd d; cd ..; cd -; pwd", "cd-oldpwd"),
     ("read a b <e2; echo \"$a|$b\"", "read-file"),
     // a symbolic link to a directory as a component that is not the last one (fixture: d/s/k, l2 -> ld/s)
